@@ -113,6 +113,8 @@ def r1(p, rep):
             found = True
             info[c.qualname] = {"lock": lock, "kind": locks[lock], "protected": sorted(protected)}
             for attr in sorted(protected):
+                # verdict per writing method
+                verdict = {}
                 for name, f in c.methods.items():
                     s = self_name(f)
                     if name == "__init__" or s is None:
@@ -122,27 +124,60 @@ def r1(p, rep):
                     if not writes:
                         continue
                     regions = locked_regions(f, s, lock)
+                    res = []
                     for w in writes:
-                        site = f"{c.module.rel}:{w.lineno}"
-                        key = f"{c.qualname}.{name}:write(self.{attr})"
                         reg = region_of(w, regions)
                         if reg is None:
-                            # accepted: helper that is only ever called with the lock held
                             if _only_called_locked(p, c, f, lock):
-                                rep.ok("C10.R1", key, site, f"helper only called inside `with self.{lock}`")
+                                res.append((True, w, f"helper {name} is only called inside `with self.{lock}`"))
                             else:
-                                rep.violation("C10.R1", key, site, f"self.{attr} is replaced outside `with self.{lock}` although other methods write it under that lock: a concurrent enter/exit/registration published in between is lost")
+                                res.append((False, w, f"self.{attr} is replaced outside `with self.{lock}` although other methods write it under that lock: a concurrent enter/exit/registration published in between is lost"))
                             continue
                         unlocked_reads = [n for n, st in acc if not st and region_of(n, regions) is not reg]
                         if unlocked_reads:
-                            rep.violation(
-                                "C10.R1",
-                                key,
-                                site,
-                                f"read-modify-write of self.{attr} is split: it is read at line(s) {sorted({n.lineno for n in unlocked_reads})} outside the locked region that writes it, so the written snapshot can be stale",
-                            )
+                            res.append((False, w, f"read-modify-write of self.{attr} is split: it is read at line(s) {sorted({n.lineno for n in unlocked_reads})} outside the locked region that writes it, so the written snapshot can be stale"))
                         else:
-                            rep.ok("C10.R1", key, site, f"read and write of self.{attr} inside one `with self.{lock}` region")
+                            res.append((True, w, f"read and write of self.{attr} inside one locked region of self.{lock}"))
+                    verdict[name] = res
+                # one obligation per public entry point (and per writing helper that is not reached from one)
+                reached = set()
+                for name, f in c.methods.items():
+                    if name.startswith("_"):
+                        continue
+                    s = self_name(f)
+                    chain = [name]
+                    seen = {name}
+                    frontier = [f]
+                    while frontier:
+                        g = frontier.pop()
+                        gs = self_name(g)
+                        for n in ast.walk(g.node):
+                            if isinstance(n, ast.Call) and isinstance(n.func, ast.Attribute) and isinstance(n.func.value, ast.Name) and n.func.value.id == gs and n.func.attr in c.methods and n.func.attr not in seen:
+                                seen.add(n.func.attr)
+                                chain.append(n.func.attr)
+                                frontier.append(c.methods[n.func.attr])
+                    res = [r for m in chain for r in verdict.get(m, [])]
+                    reached |= {m for m in chain if m in verdict}
+                    if not res:
+                        continue
+                    bad = [r for r in res if not r[0]]
+                    site = f"{c.module.rel}:{(bad[0][1] if bad else res[0][1]).lineno}"
+                    key = f"{c.qualname}.{name}:write(self.{attr})"
+                    # a read of the attribute in the public method itself that feeds a helper's write must be locked too
+                    regions = locked_regions(f, s, lock)
+                    own_reads = [n for n, st in self_attr_accesses(f, s, attr) if not st]
+                    unlocked_own = [n for n in own_reads if region_of(n, regions) is None] if name not in verdict else []
+                    if unlocked_own and any(m != name for m in chain if m in verdict):
+                        bad = bad or [(False, unlocked_own[0], f"self.{attr} is read at line {unlocked_own[0].lineno} outside the lock and the result is published by {[m for m in chain if m in verdict]}: the snapshot can be stale")]
+                    if bad:
+                        rep.violation("C10.R1", key, site, bad[0][2])
+                    else:
+                        rep.ok("C10.R1", key, site, res[0][2] + (f" (via {[m for m in chain[1:] if m in verdict]})" if name not in verdict else ""))
+                for name, res in verdict.items():
+                    if name in reached:
+                        continue
+                    for okk, w, why in res:
+                        rep.add("C10.R1", f"{c.qualname}.{name}:write(self.{attr})", f"{c.module.rel}:{w.lineno}", okk, why)
     if not found:
         raise AnalysisError("anchor vanished: no class with a threading lock protecting an attribute (BackendRegistry.use_lock expected)")
     rep.info["locks"] = info
@@ -432,7 +467,7 @@ def r3(p, rep, lockinfo):
         if not nontl:
             rep.ok("C10.R3", key, site, f"all mutated state hangs off threading.local attribute(s) {sorted(tl_attrs)}")
             continue
-        if c.name in PER_CALL_CLASSES:
+        if True:
             # check: never instantiated at module level, never stored on self or a global
             bad = []
             n_sites = 0
@@ -451,12 +486,23 @@ def r3(p, rep, lockinfo):
                         r = resolve_callee(p, n, m2)
                         if r and r[0] == "class" and r[1] is c:
                             bad.append(f"{m2.name}: instantiated at module level")
-            if bad:
-                rep.violation("C10.R3", key, site, f"{c.name} mutates itself ({nontl[:3]}) and is long-lived: {bad}")
-            else:
+            # instances returned from the creating function may be kept by the caller: only accept that for reviewed classes
+            escapes = []
+            for f2 in list(p.funcs.values()):
+                for n in walk_no_nested(f2.node):
+                    if isinstance(n, ast.Return) and isinstance(n.value, ast.Call):
+                        r = resolve_callee(p, n.value, f2.module)
+                        if r and r[0] == "class" and r[1] is c:
+                            escapes.append(f2.qualname)
+            if bad or n_sites == 0:
+                rep.violation("C10.R3", key, site, f"{c.name} mutates itself ({nontl[:3]}) and is long-lived or never instantiated locally: {bad or 'no instantiation inside a function found'}")
+            elif c.name in PER_CALL_CLASSES:
                 rep.exempt("C10.R3", key, site, f"per-call object ({PER_CALL_CLASSES[c.name]}); {n_sites} instantiation sites, all local to a function")
+            elif not escapes:
+                rep.ok("C10.R3", key, site, f"per-call object: all {n_sites} instantiation sites bind a local variable inside a function (never module level, never stored on an attribute, never returned)")
+            else:
+                rep.violation("C10.R3", key, site, f"{c.name} mutates its own state outside __init__ ({nontl[:4]}), instances are returned from {escapes} and it is neither thread-local, lock-protected, a copy-on-write snapshot nor a reviewed per-call class")
             continue
-        rep.violation("C10.R3", key, site, f"{c.name} mutates its own state outside __init__ ({nontl[:4]}) and is neither thread-local, lock-protected, a copy-on-write snapshot nor a reviewed per-call class")
     # (iii) aliases: locals obtained from self.<getter>() that are mutated must come from a thread-local chain
     for c in p.classes.values():
         tl_attrs = {a for a, vals in p.self_attr_table(c).items() if any(_thread_local_kind(p, c.module, v) == "local" for v in vals)}
